@@ -7,7 +7,11 @@ CFG = {'assumptions': ["64*len(words) < 2^31 (Go's int32 positions cannot overfl
                  'is called with i = n, outside its domain)'],
  'files': ['bitmap/select.go', 'bitmap/rank.go', 'bitmap/mask.go', 'bitmap/next.go', 'bitmap/toarray.go'],
  'go': {'bitmap.IndexSelect32': 'bitmap.IndexSelect32',
+        'bitmap.IndexSelect32/held': 'bitmap.IndexSelect32(ws), then index builds on a decoy, then the first index is '
+                                     'read out',
         'bitmap.IndexSelect32R64': 'bitmap.IndexSelect32R64',
+        'bitmap.IndexSelect32R64/held': 'bitmap.IndexSelect32R64(ws), then index builds on a decoy, then the first '
+                                        'indexes are read out',
         'bitmap.NextOne/Rank64': 'bitmap.NextOne(ws, p, 64*len) beside bitmap.Select32 of bitmap.Rank64(ws, '
                                  'IndexRank64(ws,true), p) (or -1 when that rank is the total)',
         'bitmap.PrevOne/Select32': 'bitmap.IndexSelect32 + bitmap.Select32, then bitmap.PrevOne(ws, 0, a) up to the '
@@ -56,4 +60,8 @@ CFG = {'assumptions': ["64*len(words) < 2^31 (Go's int32 positions cannot overfl
          'random bitmap of at most 6 words, one in 8 of the others, the sparse large bitmaps; non-trivial with at '
          'least 2 words and 33 1-bits, key = (checkpoints, words). Select against PrevOne: every rank(select(i)) case '
          'is also run as a = select(i) followed by PrevOne(0, a) (expected select(i-1), -1 for i = 0; key = distance '
-         'in words to the previous 1-bit and byte of the selected bit)'}
+         'in words to the previous 1-bit and byte of the selected bit). Exact-fit held indexes, first thing in every '
+         'run and ascending: bitmaps with exactly n 1-bits for ceil(n/32) in {1,2,3,4,8,16,32,64,128,256} and one '
+         'checkpoint either side (n = 32c and 32(c-1)+1; dense and strided layouts), index built, indexes of an '
+         'all-ones decoy with the same number of checkpoints built, then Select32/Select32R64 at 0, n/2, n-1 with the '
+         'FIRST index and both index slices read out after the decoy build'}
